@@ -93,6 +93,9 @@ def run_tlc_jobs(ctx, consts):
             raise InfraError("NativeRT/%s: TLC reports %s\n%s" % (cfg, r.violated, "\n".join(r.trace[-3:])[-3000:]))
         if kind != "sim" and "Model checking completed. No error has been found" not in r.out:
             raise InfraError("NativeRT/%s did not complete:\n%s" % (cfg, r.out[-2000:]))
+        # keep the histories as compact JSON lines; drop TLC's text and the parsed objects (memory)
+        r.lines = [(rec["family"], json.dumps(rec, separators=(",", ":"))) for rec in r.records if "family" in rec]
+        r.records, r.out = [], ""
         return job, r
 
     # three TLC processes at a time keep all cores busy without oversubscribing the heap
@@ -139,7 +142,7 @@ def run_probe_worker(ctx, probe, hist_file, report_file, errfile):
 
 
 def replay_histories(ctx, probe, records, tag):
-    """records: list of dict(family,h).  Returns (fails, stats)."""
+    """records: list of JSON lines {family,h}.  Returns (fails, stats)."""
     d = ctx.dir("replay." + tag)
     n = max(1, min(NCPU, len(records) // 200 + 1))
     chunks = [[] for _ in range(n)]
@@ -150,7 +153,7 @@ def replay_histories(ctx, probe, records, tag):
         f = os.path.join(d, "h%02d.ndjson" % i)
         with open(f, "w") as o:
             for r in ch:
-                o.write(json.dumps(r, separators=(",", ":")) + "\n")
+                o.write(r + "\n")
         files.append(f)
 
     def work(i):
@@ -162,7 +165,7 @@ def replay_histories(ctx, probe, records, tag):
         stats["gave_up"] += 1 if gave_up else 0
         for c in crashes:
             stats["crashes"] += 1
-            rec = chunks[i][c["line"] - 1]
+            rec = json.loads(chunks[i][c["line"] - 1])
             fails.append(dict(rec=rec, kind=c["kind"], step=-1, op="?", dev="", res="",
                               what="the probe process died while replaying this history",
                               detail=c["stderr"][-1500:], crash=True))
@@ -178,7 +181,7 @@ def replay_histories(ctx, probe, records, tag):
                     if k in j:
                         stats[k] += j[k]
             elif j.get("fail"):
-                j["rec"] = chunks[i][j["line"] - 1]
+                j["rec"] = json.loads(chunks[i][j["line"] - 1])
                 fails.append(j)
     return fails, stats
 
@@ -363,13 +366,14 @@ def run(ctx):
         if kind in ("mc", "mcgen"):
             states += r.distinct
             transitions += r.generated
-        for rec in r.records:
+        for family, line in r.lines:
             generated += 1
-            k = hist_key(rec)
+            k = sha(line)
             if k in seen:
                 continue
             seen.add(k)
-            records[rec["family"]].append(rec)
+            records[family].append(line)
+        r.lines = []
     if not all(records.values()):
         raise InfraError("TLC printed no histories for some family: %s" % {k: len(v) for k, v in records.items()})
 
@@ -386,11 +390,11 @@ def run(ctx):
 
     # stale known findings: deviation steps were generated but none failed
     devs_generated = {}
-    for fam in records:
-        for rec in records[fam]:
-            d = rec["h"][-1]["e"].get("dev")
-            if d:
-                devs_generated[d] = devs_generated.get(d, 0) + 1
+    for k in findings:
+        d = k.get("match", {}).get("dev")
+        if d:
+            needle = '"dev":"%s"' % d
+            devs_generated[d] = sum(1 for fam in records for line in records[fam] if needle in line)
     for k in findings:
         d = k.get("match", {}).get("dev")
         if d and devs_generated.get(d) and k["id"] not in ctx.known_hits:
@@ -398,9 +402,9 @@ def run(ctx):
             cov.setdefault("stale_findings", []).append(k["id"])
     cov["deviation_steps_generated"] = devs_generated
 
-    nontrivial = sum(1 for fam in records for rec in records[fam] if len(rec["h"]) >= 3)
-    sample = records["dyn"][len(records["dyn"]) // 2]
-    gsample = records["gc"][len(records["gc"]) // 2]
+    nontrivial = sum(1 for fam in records for line in records[fam] if line.count('"op":') >= 3)
+    sample = json.loads(records["dyn"][len(records["dyn"]) // 2])
+    gsample = json.loads(records["gc"][len(records["gc"]) // 2])
     cov.update(
         states=states, transitions=transitions,
         traces_validated_against_impl=total.get("replays", 0),
@@ -409,7 +413,7 @@ def run(ctx):
         steps_compared=total.get("steps", 0),
         out_of_contract_steps=dict(forked_child=total.get("forks", 0) - total.get("devhits", 0), intercepted_in_process=total.get("inproc_stops", 0)),
         evaluations=total.get("replays", 0), distinct_nontrivial=nontrivial,
-        rule="one history per transition of the (length, capacity) quotient graph of NativeRT (<= 6 steps), all histories of <= 3 (quick) / 4 (thorough) steps, "
+        rule="one history per transition of the (length, capacity) quotient graph of NativeRT (<= 6 steps), all histories of <= 3 steps (thorough: more initial lengths, both values), "
              "per-transition cover of the gc model, thorough: -simulate histories of 200 steps; a history is distinct by the hash of its JSON record and "
              "non-trivial when it has at least two steps after construction; each dyn history is replayed for every element kind of its contract class",
         samples=[dict(family="dyn", steps=[dict(e=s["e"], len=s["s"]["len"], cap=s["s"]["cap"], elems=s["s"]["elems"]) for s in sample["h"]]),
